@@ -337,6 +337,22 @@ def mc_cli_cfg(c, emit=True):
                 "ACTION_CONSTRAINT Emit\n" if emit else ""))
 
 
+def mc_bytes_scripts(ctx, rng, cmd, hcap, byteset, limit, sid0):
+    """Byte-grain composite model (MC_CliBytes): one session script per explored transition."""
+    cfg = ("SPECIFICATION Spec\nCONSTANTS\n  CmdCap = %d\n  HistCap = %d\n  Bytes0 = {%s}\nVIEW View\nACTION_CONSTRAINT Emit\n"
+           "INVARIANT Inv\nPROPERTY QuietProp\nCHECK_DEADLOCK FALSE\n" % (cmd, hcap, ", ".join(str(b) for b in byteset)))
+    res = vlib.tlc_mc(ctx.workdir, "MC_CliBytes", cfg, workers=6, timeout=1500)
+    res["constants"] = {"CmdCap": cmd, "HistCap": hcap, "Bytes0": byteset}
+    ctx.add_mc(res)
+    paths = res["T"]
+    ctx.extra["mc_clibytes_transitions_total"] = ctx.extra.get("mc_clibytes_transitions_total", 0) + len(paths)
+    if limit is not None and len(paths) > limit:
+        paths = rng.sample(paths, limit)
+    ctx.replayed += len(paths)
+    return [{"sid": sid0 + i, "cfg": {"cmd": cmd, "hcap": hcap, "set": "tiny", "prompt": 0},
+             "steps": [{"ev": "byte", "b": b} for b in p]} for i, p in enumerate(paths)]
+
+
 def mc_cli_only(ctx, consts, workers=8):
     """Design-level check only (no path emission): for instances too large to replay"""
     res = vlib.tlc_mc(ctx.workdir, "MC_Cli", mc_cli_cfg(consts, emit=False), workers=workers, timeout=2400, want_T=False)
@@ -568,6 +584,9 @@ def c04(ctx):
         scripts.append({"sid": sid, "cfg": {"cmd": rng.choice([2, 8, 32]), "hcap": rng.choice([0, 16]), "set": "raw", "prompt": 0},
                         "steps": [{"ev": "byte", "b": x} for x in b] + [{"ev": "byte", "b": 13}]})
         sid += 1
+    # every transition (quick: a seeded sample) of the byte-grain composite model
+    bset = [97, 195, 169, 13, 10, 27, 91, 65, 68, 8, 9, 0] if ctx.tier == "quick" else [97, 195, 169, 13, 10, 27, 91, 65, 66, 68, 8, 9, 0, 49]
+    scripts += mc_bytes_scripts(ctx, rng, 2, 3, bset, 2500 if ctx.tier == "quick" else 150000, 5000001)
     crit = [[13], [10], [9], [27], [91], [67], [27, 91, 65], [27, 91, 49, 59, 53, 68], [0xC3, 0xA9], [97], [8]]
     fr = [[]]
     for _ in range(3 if ctx.tier == "quick" else 4):
